@@ -1,5 +1,6 @@
-(* C15 proofs: static loading executes nothing; compiled modules are skipped; sys.path is restored for every world
-   (= every placement of failing imports); failures surface as ImportError / LoadingError, never SystemExit. *)
+(* C15 proofs, part 1: the generated tables; request trees; static loading executes nothing (sessions with loads nested to
+   any depth, and every public entry point); compiled modules are skipped.
+   Part 2: Proofs/C15_restore.v (sys.path is restored), part 3: Proofs/C15_failures.v (what can leave a load). *)
 From Coq Require Import List ZArith String Ascii Bool Arith Lia.
 From Verif Require Import Lib.Sexp Model.C15_base Gen.C15_ladder Model.C15_loader.
 Import ListNotations.
@@ -100,9 +101,79 @@ Proof. intros. split; destruct fl, sm, ld; reflexivity. Qed.
 Lemma reentry_is_by_name : reentry_try_relative_path = false.
 Proof. reflexivity. Qed.
 
+(* what is in the import family stays there through the handlers of _load_module *)
+Lemma import_family_through_load_handlers :
+  forall z, import_family z = true -> import_family (rewrap load_module_handlers z) = true.
+Proof. destruct z; intro H; try discriminate H; reflexivity. Qed.
+
+(* every public entry point hands allow_inspection / force_inspection down as it was given *)
+Lemma entry_points_forward_inspection_options :
+  forall ep a f, entry_allow ep a = a /\ entry_force ep f = f.
+Proof. intros ep a f. split; destruct ep; reflexivity. Qed.
+
+Lemma entry_catches_no_exit : forall ep, caught_by (entry_catches ep) XSystemExit = false.
+Proof. destruct ep; reflexivity. Qed.
+
+(* ================================================================== A'. request trees *)
+
+Section rtree_induction.
+  Variable P : rtree -> Prop.
+  Hypothesis Hnode : forall req kids, Forall P kids -> P (RNode req kids).
+  Fixpoint rtree_ind2 (t : rtree) : P t :=
+    match t with
+    | RNode req kids =>
+        Hnode req kids ((fix go (l : list rtree) : Forall P l :=
+                           match l with
+                           | [] => Forall_nil P
+                           | k :: r => Forall_cons k (rtree_ind2 k) (go r)
+                           end) kids)
+    end.
+End rtree_induction.
+
+Lemma load_tree_eq :
+  forall w a f st sm search req kids s,
+    load_tree w a f st sm search (RNode req kids) s =
+    load_one_with (reentries_with (load_tree w a f st true search) kids) w a f st sm search req s.
+Proof. reflexivity. Qed.
+
+(* a preorder on states that every kid's load respects is respected by the whole sequence of re-entries *)
+Lemma reentries_with_rel :
+  forall (R : st -> st -> Prop) (G : st -> Prop) (load : rtree -> st -> option exn * st) ks,
+    (forall s, R s s) -> (forall a b c, R a b -> R b c -> R a c) -> (forall a b, G a -> R a b -> G b) ->
+    Forall (fun k => forall s, G s -> R s (snd (load k s))) ks ->
+    forall s, G s -> R s (snd (reentries_with load ks s)).
+Proof.
+  intros R G load ks Rr Rt RG H. induction H as [| k r Hk Hr IH]; intros s Gs; simpl.
+  - apply Rr.
+  - pose proof (Hk s Gs) as S.
+    destruct (load k s) as [res s1]. simpl in S.
+    pose proof (RG _ _ Gs S) as G1.
+    destruct res as [x |].
+    + destruct (caught_by reentry_catches x); [eapply Rt; [exact S | apply IH; exact G1] | exact S].
+    + eapply Rt; [exact S | apply IH; exact G1].
+Qed.
+
+(* what leaves a sequence of re-entries left one of the loads and was not swallowed *)
+Lemma reentries_with_res :
+  forall (Q : exn -> Prop) (load : rtree -> st -> option exn * st) ks,
+    Forall (fun k => forall s x, fst (load k s) = Some x -> caught_by reentry_catches x = false -> Q x) ks ->
+    forall s x, fst (reentries_with load ks s) = Some x -> Q x.
+Proof.
+  intros Q load ks H. induction H as [| k r Hk Hr IH]; intros s x; simpl; [discriminate |].
+  pose proof (Hk s) as E.
+  destruct (load k s) as [res s1]. simpl in E.
+  destruct res as [y |]; [| apply IH].
+  destruct (caught_by reentry_catches y) eqn:C; [apply IH |].
+  simpl. intro K. inversion K. subst y. apply E; [reflexivity | exact C].
+Qed.
+
+Lemma Forall_flat_map_in :
+  forall (f : rtree -> list string) ks k q, In k ks -> In q (f k) -> In q (flat_map f ks).
+Proof. intros f ks k q Hk Hq. apply in_flat_map. exists k. split; assumption. Qed.
+
 (* ================================================================== B. static loading touches nothing *)
 
-(* everything but the log of visit / create / skip events is unchanged *)
+(* everything but the log of visit / read / create / skip events is unchanged *)
 Definition quiet (s s' : st) : Prop :=
   cur s' = cur s /\ next s' = next s /\ heap s' = heap s /\ mods s' = mods s /\
   executions s' = executions s /\ inspections s' = inspections s.
@@ -122,28 +193,32 @@ Proof.
 Qed.
 
 Lemma load_module_static :
-  forall w search f s,
-    quiet s (snd (load_module w false false search f s)) /\
-    (fst (load_module w false false search f s) = None \/ fst (load_module w false false search f s) = Some XLoadingError).
+  forall w store search f s,
+    quiet s (snd (load_module w false false store search f s)) /\
+    (fst (load_module w false false store search f s) = None \/ fst (load_module w false false store search f s) = Some XLoadingError).
 Proof.
-  intros w search f s. unfold load_module.
+  intros w store search f s. unfold load_module.
   destruct (static_file_agent (m_suffix f)) as [H | H]; rewrite H; simpl.
-  - split. { apply quiet_log; reflexivity. }
+  - split.
+    { assert (Hv : forall b : bool, quiet s (if b then log_ev (EvRead (m_name f) (m_suffix f)) (log_ev (EvVisit (m_name f) (m_suffix f)) s)
+                                             else log_ev (EvVisit (m_name f) (m_suffix f)) s)).
+      { intros [|]; [apply quiet_trans with (log_ev (EvVisit (m_name f) (m_suffix f)) s) |]; apply quiet_log; reflexivity. }
+      exact (Hv visit_reads_source). }
     destruct (m_vfault f) as [v |]; simpl; [right; rewrite vfault_wrapped; reflexivity | left; reflexivity].
   - split. { apply quiet_refl. } right. reflexivity.
 Qed.
 
 Lemma load_subs_static :
-  forall w search ns subs loaded s,
-    quiet s (snd (load_subs w false false search ns subs loaded s)) /\ fst (load_subs w false false search ns subs loaded s) = None.
+  forall w store search ns subs loaded s,
+    quiet s (snd (load_subs w false false store search ns subs loaded s)) /\ fst (load_subs w false false store search ns subs loaded s) = None.
 Proof.
-  intros w search ns subs. induction subs as [| f r IH]; intros loaded s; simpl.
+  intros w store search ns subs. induction subs as [| f r IH]; intros loaded s; simpl.
   - split; [apply quiet_refl | reflexivity].
   - destruct (negb ns && negb (mem_name (removelast (m_name f)) loaded)).
     { destruct (IH loaded (log_ev (EvOrphan (m_name f) (m_suffix f)) s)) as [Hq' Hr'].
       split; [| exact Hr']. eapply quiet_trans; [| exact Hq']. apply quiet_log; reflexivity. }
-    destruct (load_module_static w search f s) as [Hq Hr].
-    destruct (load_module w false false search f s) as [res s1]. simpl in *.
+    destruct (load_module_static w store search f s) as [Hq Hr].
+    destruct (load_module w false false store search f s) as [res s1]. simpl in *.
     destruct Hr as [Hr | Hr]; subst res.
     + destruct (IH (m_name f :: loaded) s1) as [Hq' Hr']. split; [eapply quiet_trans; eauto | exact Hr'].
     + rewrite loading_error_is_skipped.
@@ -154,20 +229,21 @@ Qed.
 
 (* [Q] collects the possible outcomes; the nested phase [np] is assumed quiet with outcomes in Q *)
 Lemma load_package_with_static :
-  forall (Q : option exn -> Prop) np w sm search top subs stubs s,
+  forall (Q : option exn -> Prop) np w store sm search top subs stubs s,
     Q None -> Q (Some XLoadingError) ->
     (forall s0, quiet s0 (snd (np s0)) /\ Q (fst (np s0))) ->
-    quiet s (snd (load_package_with np w false false sm search top subs stubs s)) /\
-    Q (fst (load_package_with np w false false sm search top subs stubs s)).
+    quiet s (snd (load_package_with np w false false store sm search top subs stubs s)) /\
+    Q (fst (load_package_with np w false false store sm search top subs stubs s)).
 Proof.
-  intros Q np w sm search top subs stubs s Q0 Q1 Hnp. unfold load_package_with.
-  destruct (load_module_static w search top s) as [Hq Hr].
-  destruct (load_module w false false search top s) as [res s1]. simpl in *.
+  intros Q np w store sm0 search top subs stubs s Q0 Q1 Hnp. unfold load_package_with.
+  generalize (recurse_submodules sm0). intro sm.
+  destruct (load_module_static w store search top s) as [Hq Hr].
+  destruct (load_module w false false store search top s) as [res s1]. simpl in *.
   destruct Hr as [Hr | Hr]; subst res; [| split; [exact Hq | exact Q1]].
-  assert (Hs : exists s2, (if sm then load_subs w false false search false subs [m_name top] s1 else (None, s1)) = (None, s2) /\ quiet s1 s2).
+  assert (Hs : exists s2, (if sm then load_subs w false false store search false subs [m_name top] s1 else (None, s1)) = (None, s2) /\ quiet s1 s2).
   { destruct sm.
-    - destruct (load_subs_static w search false subs [m_name top] s1) as [Hq' Hr'].
-      destruct (load_subs w false false search false subs [m_name top] s1) as [r2 s2]. simpl in *. subst r2. eauto.
+    - destruct (load_subs_static w store search false subs [m_name top] s1) as [Hq' Hr'].
+      destruct (load_subs w false false store search false subs [m_name top] s1) as [r2 s2]. simpl in *. subst r2. eauto.
     - exists s1. split; [reflexivity | apply quiet_refl]. }
   destruct Hs as (s2 & Es & Hq2). rewrite Es.
   destruct stubs as [[st_top st_subs] |]; [| split; [eapply quiet_trans; eauto | exact Q0]].
@@ -175,11 +251,11 @@ Proof.
   destruct (np s2) as [rn s2']. simpl in *.
   assert (Hq2' : quiet s s2'). { eapply quiet_trans; [exact Hq |]. eapply quiet_trans; [exact Hq2 | exact Hqn]. }
   destruct rn as [x |]; [split; [exact Hq2' | exact Hrn] |].
-  destruct (load_module_static w search st_top s2') as [Hq3 Hr3].
-  destruct (load_module w false false search st_top s2') as [r3 s3]. simpl in *.
+  destruct (load_module_static w store search st_top s2') as [Hq3 Hr3].
+  destruct (load_module w false false store search st_top s2') as [r3 s3]. simpl in *.
   destruct Hr3 as [Hr3 | Hr3]; subst r3.
   - destruct sm.
-    + destruct (load_subs_static w search false st_subs [m_name st_top] s3) as [Hq4 Hr4].
+    + destruct (load_subs_static w store search false st_subs [m_name st_top] s3) as [Hq4 Hr4].
       split; [| rewrite Hr4; exact Q0].
       eapply quiet_trans; [exact Hq2' |]. eapply quiet_trans; [exact Hq3 | exact Hq4].
     + split; [| exact Q0]. eapply quiet_trans; [exact Hq2' | exact Hq3].
@@ -187,108 +263,150 @@ Proof.
 Qed.
 
 Lemma load_one_with_static :
-  forall (Q : option exn -> Prop) np w sm search req s,
+  forall (Q : option exn -> Prop) np w store sm search req s,
     Q None -> Q (Some XLoadingError) -> Q (Some XModuleNotFound) ->
     (forall e, find_pkg (w_find w) req = FFinderError e -> Q (Some (ferr_exn e))) ->
     (forall s0, quiet s0 (snd (np s0)) /\ Q (fst (np s0))) ->
-    quiet s (snd (load_one_with np w false false sm search req s)) /\ Q (fst (load_one_with np w false false sm search req s)).
+    quiet s (snd (load_one_with np w false false store sm search req s)) /\ Q (fst (load_one_with np w false false store sm search req s)).
 Proof.
-  intros Q np w sm search req s Q0 Q1 Q2 Q3 Hnp. unfold load_one_with.
+  intros Q np w store sm search req s Q0 Q1 Q2 Q3 Hnp. unfold load_one_with.
   match goal with |- context [let (r, s') := ?X in _] =>
     assert (H : quiet s (snd X) /\ Q (fst X)); [| destruct X as [r s']; simpl in *; destruct H as [Hq Hr]; split; [| exact Hr];
       eapply quiet_trans; [exact Hq | apply quiet_log; reflexivity]] end.
   destruct (find_pkg (w_find w) req) as [top subs stubs | n subs | via | e].
   - apply load_package_with_static; assumption.
-  - destruct sm.
-    + destruct (load_subs_static w search true subs [n] (log_ev (EvCreate n) s)) as [Hq Hr]. split; [| rewrite Hr; exact Q0].
+  - destruct (recurse_submodules sm).
+    + destruct (load_subs_static w store search true subs [n] (log_ev (EvCreate n) s)) as [Hq Hr]. split; [| rewrite Hr; exact Q0].
       eapply quiet_trans; [| exact Hq]. apply quiet_log; reflexivity.
     + simpl. split; [apply quiet_log; reflexivity | exact Q0].
   - rewrite not_found_static. simpl. split; [apply quiet_refl | exact Q2].
   - simpl. split; [apply quiet_refl | apply Q3; reflexivity].
 Qed.
 
-(* outcomes of a static load of [req] *)
-Definition static_result (w : world) (req : string) (r : option exn) : Prop :=
-  r = None \/ r = Some XLoadingError \/ r = Some XModuleNotFound \/
-  exists e, r = Some (ferr_exn e) /\ find_pkg (w_find w) req = FFinderError e.
+(* outcomes of a static load: success, LoadingError, ModuleNotFoundError, or what the finder raised for one of the
+   packages asked for (the root or a package requested from inside the load, at any depth) *)
+Definition finder_escape (w : world) (qs : list string) (x : exn) : Prop :=
+  exists q e, In q qs /\ x = ferr_exn e /\ find_pkg (w_find w) q = FFinderError e.
 
-Lemma load_one_static :
-  forall w sm search req s,
-    quiet s (snd (load_one w false false sm search req s)) /\ static_result w req (fst (load_one w false false sm search req s)).
+Definition static_result (w : world) (qs : list string) (r : option exn) : Prop :=
+  r = None \/ r = Some XLoadingError \/ r = Some XModuleNotFound \/ exists x, r = Some x /\ finder_escape w qs x.
+
+Lemma finder_escape_mono : forall w qs qs' x, (forall q, In q qs -> In q qs') -> finder_escape w qs x -> finder_escape w qs' x.
+Proof. intros w qs qs' x H (q & e & Hq & Hx & Hf). exists q, e. auto. Qed.
+
+Lemma finder_error_not_swallowed : forall e, caught_by reentry_catches (ferr_exn e) = false.
+Proof. destruct e; reflexivity. Qed.
+
+Lemma load_tree_static :
+  forall w store search t sm s,
+    quiet s (snd (load_tree w false false store sm search t s)) /\
+    static_result w (tree_reqs t) (fst (load_tree w false false store sm search t s)).
 Proof.
-  intros w sm search req s. unfold load_one.
-  apply (load_one_with_static (static_result w req)); unfold static_result; auto.
-  - intros e He. right. right. right. exists e. split; [reflexivity | exact He].
-  - intros s0. split; [apply quiet_refl | left; reflexivity].
+  intros w store search t. induction t as [req kids IH] using rtree_ind2. intros sm s.
+  rewrite load_tree_eq.
+  apply (load_one_with_static (static_result w (tree_reqs (RNode req kids)))); unfold static_result; auto.
+  - intros e He. right. right. right. exists (ferr_exn e). split; [reflexivity |]. exists req, e. simpl. auto.
+  - intros s0. split.
+    + apply (reentries_with_rel quiet (fun _ => True)); auto using quiet_refl; [intros; eapply quiet_trans; eauto |].
+      eapply Forall_impl; [| exact IH]. intros k Hk s1 _. apply Hk.
+    + destruct (fst (reentries_with (load_tree w false false store true search) kids s0)) as [x |] eqn:E; [| left; reflexivity].
+      right. right. right. exists x. split; [reflexivity |].
+      revert E. apply (reentries_with_res (finder_escape w (tree_reqs (RNode req kids)))).
+      rewrite Forall_forall in IH |- *. intros k Hin s1 y Ey Cy.
+      destruct (IH k Hin true s1) as [_ Hr]. rewrite Ey in Hr.
+      destruct Hr as [Hr | [Hr | [Hr | (z & Hz & Hf)]]]; try discriminate Hr.
+      * inversion Hr. subst y. discriminate Cy.
+      * inversion Hr. subst y. discriminate Cy.
+      * inversion Hz. subst z. eapply finder_escape_mono; [| exact Hf].
+        intros q Hq. simpl. right. eapply Forall_flat_map_in; eauto.
 Qed.
 
 Lemma reentries_static :
-  forall w search reqs s, quiet s (snd (reentries w false false search reqs s)).
+  forall w store search ks s, quiet s (snd (reentries w false false store search ks s)).
 Proof.
-  intros w search reqs. induction reqs as [| r rs IH]; intros s; simpl.
-  - apply quiet_refl.
-  - destruct (load_one_static w true search r s) as [Hq Hr].
-    destruct (load_one w false false true search r s) as [res s1]. simpl in *.
-    destruct res as [x |].
-    + destruct (caught_by reentry_catches x); [eapply quiet_trans; [exact Hq | apply IH] | exact Hq].
-    + eapply quiet_trans; [exact Hq | apply IH].
+  intros w store search ks s. unfold reentries.
+  apply (reentries_with_rel quiet (fun _ => True)); auto using quiet_refl; [intros; eapply quiet_trans; eauto |].
+  rewrite Forall_forall. intros k _ s1 _. apply load_tree_static.
 Qed.
 
-Lemma load_root_static :
-  forall w sm search nested root s, quiet s (snd (load_root w false false sm search nested root s)).
+Lemma session_static :
+  forall w store sm search root later s, quiet s (snd (session w false false store sm search root later s)).
 Proof.
-  intros w sm search nested root s. unfold load_root.
-  apply (load_one_with_static (fun _ => True)); auto.
-  intros s0. split; [apply reentries_static | exact I].
+  intros w store sm search root later s. unfold session.
+  destruct root as [t |]; [| apply reentries_static].
+  destruct (load_tree_static w store search t sm s) as [Hq _].
+  destruct (load_tree w false false store sm search t s) as [res s1]. simpl in Hq.
+  destruct res; [exact Hq |]. eapply quiet_trans; [exact Hq | apply reentries_static].
 Qed.
 
 Theorem static_session_executes_nothing :
-  forall w submodules search nested root reqs s r s',
-    session w false false submodules search nested root reqs s = (r, s') ->
+  forall w store submodules search root later s r s',
+    session w false false store submodules search root later s = (r, s') ->
     executions s' = executions s /\ inspections s' = inspections s /\ mods s' = mods s /\
     cur s' = cur s /\ next s' = next s /\ heap s' = heap s.
 Proof.
-  intros w sm search nested root reqs s r s' H. unfold session in H.
-  pose proof (load_root_static w sm search nested root s) as Hq.
-  destruct (load_root w false false sm search nested root s) as [res s1]. simpl in Hq.
-  assert (Q : quiet s s').
-  { destruct res.
-    - inversion H; subst. exact Hq.
-    - pose proof (reentries_static w search reqs s1) as Hq2. rewrite H in Hq2. simpl in Hq2. eapply quiet_trans; eauto. }
+  intros w store sm search root later s r s' H.
+  pose proof (session_static w store sm search root later s) as Q. rewrite H in Q. simpl in Q.
   destruct Q as (H1 & H2 & H3 & H4 & H5 & H6). repeat split; assumption.
 Qed.
 
 Theorem static_root_result :
-  forall w submodules search root s, static_result w root (fst (load_one w false false submodules search root s)).
-Proof. intros. apply load_one_static. Qed.
+  forall w store submodules search t s, static_result w (tree_reqs t) (fst (load_tree w false false store submodules search t s)).
+Proof. intros. apply load_tree_static. Qed.
+
+(* through every public entry point: the options arrive as given, so the loaders they build are static too *)
+Lemma run_phases_static :
+  forall store phs s, quiet s (snd (run_phases false false store phs s)).
+Proof.
+  intros store phs. induction phs as [| ph r IH]; intros s; simpl; [apply quiet_refl |].
+  destruct (entry_points_forward_inspection_options (ph_entry ph) false false) as [Ea Ef]. rewrite Ea, Ef.
+  pose proof (session_static (ph_world ph) (entry_store (ph_entry ph) store) (entry_submodules (ph_entry ph) (ph_submodules ph))
+                (phase_search ph s) (ph_root ph) (ph_later ph) s) as Q.
+  destruct (session (ph_world ph) false false (entry_store (ph_entry ph) store) (entry_submodules (ph_entry ph) (ph_submodules ph))
+              (phase_search ph s) (ph_root ph) (ph_later ph) s) as [res s1]. simpl in Q.
+  destruct res as [x |].
+  - destruct (caught_by (entry_catches (ph_entry ph)) x); [eapply quiet_trans; [exact Q | apply IH] | exact Q].
+  - eapply quiet_trans; [exact Q | apply IH].
+Qed.
+
+Theorem static_entry_executes_nothing :
+  forall store phs s r s',
+    run_phases false false store phs s = (r, s') ->
+    executions s' = executions s /\ inspections s' = inspections s /\ mods s' = mods s /\
+    cur s' = cur s /\ next s' = next s /\ heap s' = heap s.
+Proof.
+  intros store phs s r s' H.
+  pose proof (run_phases_static store phs s) as Q. rewrite H in Q. simpl in Q.
+  destruct Q as (H1 & H2 & H3 & H4 & H5 & H6). repeat split; assumption.
+Qed.
 
 (* ================================================================== C. compiled modules are skipped *)
 
 Lemma load_module_compiled :
-  forall w search f s, source_suffix (m_suffix f) = false -> load_module w false false search f s = (Some XLoadingError, s).
+  forall w store search f s, source_suffix (m_suffix f) = false -> load_module w false false store search f s = (Some XLoadingError, s).
 Proof.
-  intros w search f s H. unfold load_module. rewrite (compiled_agent _ H). simpl. reflexivity.
+  intros w store search f s H. unfold load_module. rewrite (compiled_agent _ H). simpl. reflexivity.
 Qed.
 
 Theorem compiled_submodule_skipped :
-  forall w search ns f subs loaded s,
+  forall w store search ns f subs loaded s,
     source_suffix (m_suffix f) = false ->
     (ns = true \/ mem_name (removelast (m_name f)) loaded = true) ->
-    load_subs w false false search ns (f :: subs) loaded s =
-    load_subs w false false search ns subs loaded (log_ev (EvSkip (m_name f) (m_suffix f)) s).
+    load_subs w false false store search ns (f :: subs) loaded s =
+    load_subs w false false store search ns subs loaded (log_ev (EvSkip (m_name f) (m_suffix f)) s).
 Proof.
-  intros w search ns f subs loaded s H Hp. simpl.
+  intros w store search ns f subs loaded s H Hp. simpl.
   assert (E : negb ns && negb (mem_name (removelast (m_name f)) loaded) = false).
   { destruct Hp as [Hp | Hp]; rewrite Hp; [reflexivity | apply andb_false_r]. }
-  rewrite E. rewrite (load_module_compiled w search f s H). rewrite loading_error_is_skipped. reflexivity.
+  rewrite E. rewrite (load_module_compiled w store search f s H). rewrite loading_error_is_skipped. reflexivity.
 Qed.
 
 Theorem compiled_top_rejected :
-  forall np w sm search top subs stubs s,
+  forall np w store sm search top subs stubs s,
     source_suffix (m_suffix top) = false ->
-    load_package_with np w false false sm search top subs stubs s = (Some XLoadingError, s).
+    load_package_with np w false false store sm search top subs stubs s = (Some XLoadingError, s).
 Proof.
-  intros. unfold load_package_with. rewrite (load_module_compiled w search top s H). reflexivity.
+  intros. unfold load_package_with. rewrite (load_module_compiled w store search top s H). reflexivity.
 Qed.
 
 (* with inspection allowed the same module is inspected (so the skip is the ladder's doing, not the file's) *)
@@ -296,644 +414,3 @@ Example compiled_inspected_when_allowed :
   forall sfx, source_suffix sfx = false -> agent_ladder false false true sfx = AInspect.
 Proof. intros sfx H. unfold agent_ladder, source_suffix in *. rewrite H. reflexivity. Qed.
 
-(* ================================================================== D. sys.path is restored *)
-
-(* inside `with sys_path(...)`: sys.path is bound to a list object allocated at or after N *)
-Definition good (N : nat) (s : st) : Prop := N <= cur s /\ cur s < next s.
-(* list objects older than N are untouched, identities only grow *)
-Definition frame (N : nat) (s s' : st) : Prop := next s <= next s' /\ forall i, i < N -> heap s' i = heap s i.
-
-Lemma frame_refl : forall N s, frame N s s.
-Proof. intros; split; auto. Qed.
-
-Lemma frame_trans : forall N a b c, frame N a b -> frame N b c -> frame N a c.
-Proof.
-  intros N a b c [H1 H2] [K1 K2]. split; [lia |]. intros i Hi. rewrite K2, H2; auto.
-Qed.
-
-Lemma upd_other : forall h i v j, j <> i -> upd h i v j = h j.
-Proof. intros h i v j H. unfold upd. destruct (Nat.eqb j i) eqn:E; [apply Nat.eqb_eq in E; contradiction | reflexivity]. Qed.
-
-Lemma apply_effect_inner : forall N e s, good N s -> good N (apply_effect e s) /\ frame N s (apply_effect e s).
-Proof.
-  intros N e s [H1 H2]. destruct e; simpl; unfold mutate, rebind, good, frame; simpl;
-    (split; [split; lia | split; [lia | intros i Hi; apply upd_other; lia]]).
-Qed.
-
-Lemma apply_effects_inner : forall N es s, good N s -> good N (apply_effects es s) /\ frame N s (apply_effects es s).
-Proof.
-  intros N es. unfold apply_effects. induction es as [| e r IH]; intros s G; simpl.
-  - split; [exact G | apply frame_refl].
-  - destruct (apply_effect_inner N e s G) as [G1 F1]. destruct (IH _ G1) as [G2 F2].
-    split; [exact G2 | eapply frame_trans; eauto].
-Qed.
-
-Lemma import_prefixes_inner :
-  forall N w rest pre s, good N s ->
-    good N (snd (import_prefixes w pre rest s)) /\ frame N s (snd (import_prefixes w pre rest s)).
-Proof.
-  intros N w rest. induction rest as [| p r IH]; intros pre s G; simpl.
-  - split; [exact G | apply frame_refl].
-  - destruct (mem_name (pre ++ [p]) (mods s)); [apply IH; exact G |].
-    destruct (lookup_beh (w_beh w) (pre ++ [p])) as [b |]; [| split; [exact G | apply frame_refl]].
-    destruct (visible b (heap s (cur s))); [| split; [exact G | apply frame_refl]].
-    set (s1 := if b_runs b then apply_effects (b_effects b) (log_ev (EvExec (pre ++ [p]) (heap s (cur s))) s) else s).
-    assert (H1 : good N s1 /\ frame N s s1).
-    { unfold s1. destruct (b_runs b); [| split; [exact G | apply frame_refl]].
-      apply (apply_effects_inner N (b_effects b) (log_ev (EvExec (pre ++ [p]) (heap s (cur s))) s)). exact G. }
-    destruct H1 as [G1 F1].
-    destruct (b_fault b); simpl; [split; assumption |].
-    destruct (IH (pre ++ [p]) (add_mod (pre ++ [p]) s1)) as [G2 F2]; [exact G1 |].
-    split; [exact G2 | eapply frame_trans; [exact F1 | exact F2]].
-Qed.
-
-Lemma dyn_attempts_inner :
-  forall N w rp objs s, good N s ->
-    good N (snd (dyn_attempts w rp objs s)) /\ frame N s (snd (dyn_attempts w rp objs s)).
-Proof.
-  intros N w rp. induction rp as [| l r IH]; intros objs s G; simpl.
-  - split; [exact G | apply frame_refl].
-  - unfold import_module.
-    destruct (import_prefixes_inner N w (rev r ++ [l]) [] s G) as [G1 F1].
-    destruct (import_prefixes w [] (rev r ++ [l]) s) as [res s1]. simpl in *.
-    destruct res as [x |]; simpl; [| split; assumption].
-    destruct (caught_by import_attempt_catches x); simpl; [| split; assumption].
-    destruct (IH (l :: objs) s1 G1) as [G2 F2]. split; [exact G2 | eapply frame_trans; eauto].
-Qed.
-
-(* the interpreter outside any `with sys_path`: same binding, older list objects untouched *)
-Definition stable (s s' : st) : Prop :=
-  cur s' = cur s /\ next s <= next s' /\ forall i, i < next s -> heap s' i = heap s i.
-
-Lemma stable_refl : forall s, stable s s.
-Proof. intros; repeat split; auto. Qed.
-
-Lemma stable_wf : forall s s', wf s -> stable s s' -> wf s'.
-Proof. unfold wf, stable. intros s s' H (H1 & H2 & _). lia. Qed.
-
-Lemma stable_trans : forall a b c, stable a b -> stable b c -> stable a c.
-Proof.
-  unfold stable. intros a b c (H1 & H2 & H3) (K1 & K2 & K3). repeat split; try lia.
-  intros i Hi. rewrite K3, H3; auto; lia.
-Qed.
-
-Lemma stable_log_l : forall e s s', stable (log_ev e s) s' -> stable s s'.
-Proof. intros e s s' H. exact H. Qed.
-
-Lemma stable_log_r : forall e s, stable s (log_ev e s).
-Proof. intros. unfold stable. simpl. repeat split; auto. Qed.
-
-Lemma wf_log : forall e s, wf s -> wf (log_ev e s).
-Proof. intros e s H. exact H. Qed.
-
-Lemma with_sys_path_stable :
-  forall A paths (body : st -> (exn + A) * st) s,
-    paths <> [] -> wf s ->
-    (forall N s0, good N s0 -> good N (snd (body s0)) /\ frame N s0 (snd (body s0))) ->
-    stable s (snd (with_sys_path paths body s)).
-Proof.
-  intros A paths body s Hp Hwf Hbody. unfold with_sys_path.
-  destruct paths as [| p0 pr]; [contradiction |]. simpl.
-  assert (G : good (next s) (rebind (p0 :: pr) s)). { unfold good, rebind; simpl. lia. }
-  destruct (Hbody _ _ G) as [[G1 G2] [F1 F2]].
-  destruct (body (rebind (p0 :: pr) s)) as [r s2]. simpl in *.
-  assert (S : stable s (set_cur (cur s) s2)).
-  { unfold stable, set_cur; simpl. repeat split; [lia |].
-    intros i Hi. rewrite F2 by exact Hi. apply upd_other. lia. }
-  destruct r; [| exact S].
-  unfold sys_path_restores_on_exception. exact S.
-Qed.
-
-Lemma dynamic_import_stable :
-  forall w n paths s, paths <> [] -> wf s -> stable s (snd (dynamic_import w n paths s)).
-Proof.
-  intros w n paths s Hp Hwf. unfold dynamic_import. apply with_sys_path_stable; auto.
-  intros N s0 G. destruct (dyn_attempts_inner N w (rev n) [] s0 G) as [G1 F1].
-  destruct (dyn_attempts w (rev n) [] s0) as [[x | [m objs]] s1]; simpl in *; split; assumption.
-Qed.
-
-Lemma mem_path_nonempty : forall p l, mem_path p l = true -> l <> [].
-Proof. intros p l H E. subst. discriminate. Qed.
-
-Lemma import_paths_nonempty :
-  forall n file search, (file <> None \/ search <> []) -> import_paths_for n file search <> [].
-Proof.
-  intros n file search H. unfold import_paths_for. destruct file as [f |].
-  - destruct (mem_path _ search) eqn:E; [eapply mem_path_nonempty; eauto | discriminate].
-  - destruct H as [H | H]; [contradiction | exact H].
-Qed.
-
-Lemma inspect_call_stable :
-  forall w n file search s, (file <> None \/ search <> []) -> wf s -> stable s (snd (inspect_call w n file search s)).
-Proof.
-  intros w n file search s H Hwf. unfold inspect_call.
-  pose proof (dynamic_import_stable w n _ s (import_paths_nonempty n file search H) Hwf) as S.
-  destruct (dynamic_import w n (import_paths_for n file search) s) as [[x | v] s1]; exact S.
-Qed.
-
-Lemma inspect_module_stable :
-  forall w n file search s, (file <> None \/ search <> []) -> wf s -> stable s (snd (inspect_module w n file search s)).
-Proof.
-  intros w n file search s H Hwf. unfold inspect_module.
-  destruct (ignored n); [apply stable_refl |].
-  pose proof (inspect_call_stable w n file search s H Hwf) as S.
-  destruct file as [f |].
-  - destruct (m_vfault f) as [[|] |].
-    + destruct (inspect_call w n (Some f) search s); exact S.
-    + destruct (source_suffix (m_suffix f)); [apply stable_refl |]. destruct (inspect_call w n (Some f) search s); exact S.
-    + destruct (inspect_call w n (Some f) search s); exact S.
-  - destruct (inspect_call w n None search s); exact S.
-Qed.
-
-Lemma load_module_stable :
-  forall w allow force search f s, wf s -> stable s (snd (load_module w allow force search f s)).
-Proof.
-  intros w a fo search f s Hwf. unfold load_module.
-  destruct (agent_ladder false fo a (m_suffix f)); simpl.
-  - apply stable_log_r.
-  - apply stable_log_r.
-  - pose proof (inspect_module_stable w (m_name f) (Some f) search (log_ev (EvInspect (m_name f) (m_suffix f)) s)) as S.
-    destruct (inspect_module w (m_name f) (Some f) search (log_ev (EvInspect (m_name f) (m_suffix f)) s)) as [r s1]. simpl in *.
-    eapply stable_log_l. apply S; [left; discriminate | exact Hwf].
-  - apply stable_refl.
-Qed.
-
-Lemma load_subs_stable :
-  forall w allow force search ns subs loaded s, wf s -> stable s (snd (load_subs w allow force search ns subs loaded s)).
-Proof.
-  intros w a fo search ns subs. induction subs as [| f r IH]; intros loaded s Hwf; simpl.
-  - apply stable_refl.
-  - destruct (negb ns && negb (mem_name (removelast (m_name f)) loaded)).
-    { eapply stable_log_l. apply (IH loaded (log_ev (EvOrphan (m_name f) (m_suffix f)) s)). exact Hwf. }
-    pose proof (load_module_stable w a fo search f s Hwf) as S.
-    destruct (load_module w a fo search f s) as [res s1]. simpl in S.
-    pose proof (stable_wf _ _ Hwf S) as Hwf1.
-    destruct res as [x |].
-    + destruct (caught_by load_submodule_catches x); [| exact S].
-      eapply stable_trans; [exact S |]. eapply stable_log_l. apply (IH loaded (log_ev (EvSkip (m_name f) (m_suffix f)) s1)). exact Hwf1.
-    + eapply stable_trans; [exact S | apply IH; exact Hwf1].
-Qed.
-
-Lemma load_package_with_stable :
-  forall np w allow force sm search top subs stubs s,
-    (forall s0, wf s0 -> stable s0 (snd (np s0))) -> wf s ->
-    stable s (snd (load_package_with np w allow force sm search top subs stubs s)).
-Proof.
-  intros np w a fo sm search top subs stubs s Hnp Hwf. unfold load_package_with.
-  pose proof (load_module_stable w a fo search top s Hwf) as S1.
-  destruct (load_module w a fo search top s) as [r1 s1]. simpl in S1.
-  destruct r1; [exact S1 |].
-  pose proof (stable_wf _ _ Hwf S1) as Hwf1.
-  assert (S2 : stable s1 (snd (if sm then load_subs w a fo search false subs [m_name top] s1 else (None, s1)))).
-  { destruct sm; [apply load_subs_stable; exact Hwf1 | apply stable_refl]. }
-  destruct (if sm then load_subs w a fo search false subs [m_name top] s1 else (None, s1)) as [r2 s2]. simpl in S2.
-  pose proof (stable_trans _ _ _ S1 S2) as S12.
-  destruct r2; [exact S12 |].
-  pose proof (stable_wf _ _ Hwf S12) as Hwf2.
-  destruct stubs as [[st_top st_subs] |]; [| exact S12].
-  pose proof (Hnp s2 Hwf2) as Sn.
-  destruct (np s2) as [rn s2']. simpl in Sn.
-  pose proof (stable_trans _ _ _ S12 Sn) as S12n.
-  destruct rn; [exact S12n |].
-  pose proof (stable_wf _ _ Hwf S12n) as Hwf2'.
-  pose proof (load_module_stable w a fo search st_top s2' Hwf2') as S3.
-  destruct (load_module w a fo search st_top s2') as [r3 s3]. simpl in S3.
-  pose proof (stable_trans _ _ _ S12n S3) as S123.
-  destruct r3; [exact S123 |].
-  destruct sm; [| exact S123].
-  eapply stable_trans; [exact S123 |]. apply load_subs_stable. eapply stable_wf; eauto.
-Qed.
-
-Lemma load_one_with_stable :
-  forall np w allow force sm search req s,
-    (forall s0, wf s0 -> stable s0 (snd (np s0))) -> search <> [] -> wf s ->
-    stable s (snd (load_one_with np w allow force sm search req s)).
-Proof.
-  intros np w a fo sm search req s Hnp Hs Hwf. unfold load_one_with.
-  match goal with |- context [let (r, s') := ?X in _] =>
-    assert (H : stable s (snd X)); [| destruct X as [r s']; simpl in *; eapply stable_trans; [exact H | apply stable_log_r]] end.
-  destruct (find_pkg (w_find w) req) as [top subs stubs | n subs | via | e].
-  - apply load_package_with_stable; assumption.
-  - destruct sm; [| apply stable_log_r].
-    eapply stable_log_l. apply (load_subs_stable w a fo search true subs [n] (log_ev (EvCreate n) s)). exact Hwf.
-  - destruct (not_found_reraises a fo); [apply stable_refl |].
-    pose proof (dynamic_import_stable w [req] search s Hs Hwf) as S1.
-    destruct (dynamic_import w [req] search s) as [[x | v] s1]; simpl in S1; [exact S1 |].
-    pose proof (stable_wf _ _ Hwf S1) as Hwf1.
-    destruct via as [[top subs] |].
-    + eapply stable_trans; [exact S1 | apply load_package_with_stable; assumption].
-    + eapply stable_trans; [exact S1 |]. eapply stable_log_l.
-      apply (inspect_module_stable w [req] None search (log_ev (EvInspect [req] "") s1)); [right; exact Hs | exact Hwf1].
-  - apply stable_refl.
-Qed.
-
-Lemma no_nested_stable : forall s0, wf s0 -> stable s0 (snd (no_nested s0)).
-Proof. intros. apply stable_refl. Qed.
-
-Lemma reentries_stable :
-  forall w allow force search reqs s, search <> [] -> wf s -> stable s (snd (reentries w allow force search reqs s)).
-Proof.
-  intros w a fo search reqs. induction reqs as [| r rs IH]; intros s Hs Hwf; simpl.
-  - apply stable_refl.
-  - pose proof (load_one_with_stable no_nested w a fo true search r s no_nested_stable Hs Hwf) as S.
-    fold (load_one w a fo true search r s) in S.
-    destruct (load_one w a fo true search r s) as [res s1]. simpl in S.
-    pose proof (stable_wf _ _ Hwf S) as Hwf1.
-    destruct res as [x |].
-    + destruct (caught_by reentry_catches x); [| exact S]. eapply stable_trans; [exact S | apply IH; assumption].
-    + eapply stable_trans; [exact S | apply IH; assumption].
-Qed.
-
-Theorem sys_path_restored :
-  forall w allow force submodules search nested root reqs s r s',
-    wf s -> search <> [] ->
-    session w allow force submodules search nested root reqs s = (r, s') ->
-    cur s' = cur s /\ heap s' (cur s) = heap s (cur s).
-Proof.
-  intros w a fo sm search nested root reqs s r s' Hwf Hs H. unfold session, load_root in H.
-  assert (Hn : forall s0, wf s0 -> stable s0 (snd (reentries w a fo search nested s0))).
-  { intros s0 H0. apply reentries_stable; assumption. }
-  pose proof (load_one_with_stable _ w a fo sm search root s Hn Hs Hwf) as S1.
-  destruct (load_one_with (reentries w a fo search nested) w a fo sm search root s) as [res s1]. simpl in S1.
-  assert (S : stable s s').
-  { destruct res.
-    - inversion H; subst. exact S1.
-    - pose proof (reentries_stable w a fo search reqs s1 Hs (stable_wf _ _ Hwf S1)) as S2.
-      rewrite H in S2. simpl in S2. eapply stable_trans; eauto. }
-  destruct S as (C & _ & Hh). split; [exact C | apply Hh; exact Hwf].
-Qed.
-
-(* a package found on disk needs no assumption on the search paths: the import path always holds its parent directory *)
-Theorem sys_path_restored_found_package :
-  forall w allow force submodules search top subs stubs s r s',
-    wf s -> load_package_with no_nested w allow force submodules search top subs stubs s = (r, s') ->
-    cur s' = cur s /\ heap s' (cur s) = heap s (cur s).
-Proof.
-  intros w a fo sm search top subs stubs s r s' Hwf H.
-  pose proof (load_package_with_stable no_nested w a fo sm search top subs stubs s no_nested_stable Hwf) as S. rewrite H in S. simpl in S.
-  destruct S as (C & _ & Hh). split; [exact C | apply Hh; exact Hwf].
-Qed.
-
-(* the hypothesis `search <> []` is needed: sys_path() without paths is a no-op, so what the imported code does to
-   sys.path stays (reachable only when both search_paths and sys.path are empty when the loader is built) *)
-Example empty_search_paths_do_not_restore :
-  exists w root s r s',
-    wf s /\ session w true false true [] [] root [] s = (r, s') /\ heap s' (cur s) <> heap s (cur s).
-Proof.
-  exists (mkWorld [] [(["m"], mkBeh None true [EIns0 ["evil"]] None)] [] []), "m", (init_state []).
-  eexists. eexists. split; [unfold wf; simpl; lia |]. split; [vm_compute; reflexivity |]. vm_compute. discriminate.
-Qed.
-
-(* non-vacuity: a world in which an inspected submodule rebinds and mutates sys.path, then raises SystemExit *)
-Example restore_exercised :
-  let f := mkMod ["p"; "a"] ["sp"; "p"] "a" ".py" None in
-  let top := mkMod ["p"] ["sp"; "p"] "__init__" ".py" None in
-  let w := mkWorld [("p", FPkg top [f] None)]
-                   [(["p"], mkBeh (Some ["sp"]) true [EIns0 ["x"]] None);
-                    (["p"; "a"], mkBeh None true [ERebind [["y"]]; EApp ["z"]] (Some XSystemExit))] [] [] in
-  let '(r, s') := session w true true true [["sp"]] [] "p" [] (init_state [["orig"]]) in
-  r = None /\ cur s' = 0 /\ heap s' 0 = [["orig"]] /\ List.length (executions s') = 2 /\ next s' = 4.
-Proof. vm_compute. repeat split. Qed.
-
-(* ================================================================== E. failures are ImportError / LoadingError *)
-
-Lemma with_sys_path_fst :
-  forall A paths (body : st -> (exn + A) * st) s,
-    exists s0, fst (with_sys_path paths body s) = fst (body s0).
-Proof.
-  intros A paths body s. unfold with_sys_path.
-  destruct (is_nil paths && sys_path_noop_when_empty); [exists s; reflexivity |].
-  exists (rebind paths s). destruct (body (rebind paths s)) as [[x | v] s2]; reflexivity.
-Qed.
-
-Lemma dyn_attempts_err : forall w rp objs s x, fst (dyn_attempts w rp objs s) = inl x -> x = XImportError.
-Proof.
-  intros w rp. induction rp as [| l r IH]; intros objs s x; simpl.
-  - intro H. inversion H. apply exhausted_is_importerror.
-  - destruct (import_module w (rev r ++ [l]) s) as [[y |] s1]; simpl.
-    + rewrite import_attempt_catches_all. apply IH.
-    + discriminate.
-Qed.
-
-Lemma getattrs_err : forall w parts owner x, getattrs w owner parts = inl x -> x = XImportError.
-Proof.
-  intros w parts. induction parts as [| p r IH]; intros owner x; simpl.
-  - discriminate.
-  - destruct (lookup_attr (w_attr w) owner p) as [[y |] |].
-    + rewrite getattr_catches_all. intro H. inversion H. apply getattr_is_importerror.
-    + apply IH.
-    + try rewrite getattr_catches_all. intro H. inversion H. apply getattr_is_importerror.
-Qed.
-
-Lemma dynamic_import_err : forall w n paths s x, fst (dynamic_import w n paths s) = inl x -> x = XImportError.
-Proof.
-  intros w n paths s x. unfold dynamic_import.
-  destruct (with_sys_path_fst name paths
-              (fun s0 => match dyn_attempts w (rev n) [] s0 with
-                         | (inl x, s1) => (inl x, s1)
-                         | (inr (m, objs), s1) => (getattrs w m objs, s1)
-                         end) s) as [s0 E].
-  rewrite E. clear E.
-  pose proof (dyn_attempts_err w (rev n) [] s0) as D.
-  destruct (dyn_attempts w (rev n) [] s0) as [[y | [m objs]] s1]; simpl in *.
-  - intro H. inversion H. subst. apply D. reflexivity.
-  - apply getattrs_err.
-Qed.
-
-(* the part of the fault alphabet the property speaks about: walking the imported object may exit, nothing else *)
-Definition walk_exit_only (w : world) : Prop := forall n x, lookup_walk (w_walk w) n = Some x -> x = XSystemExit.
-
-Lemma inspect_call_err :
-  forall w n file search s x, fst (inspect_call w n file search s) = Some x ->
-    x = XImportError \/ lookup_walk (w_walk w) (match fst (dynamic_import w n (import_paths_for n file search) s) with inr v => v | inl _ => [] end) = Some x.
-Proof.
-  intros w n file search s x. unfold inspect_call.
-  pose proof (dynamic_import_err w n (import_paths_for n file search) s) as D.
-  destruct (dynamic_import w n (import_paths_for n file search) s) as [[y | v] s1]; simpl in *.
-  - intro H. inversion H. subst. left. apply D. reflexivity.
-  - intro H. right. exact H.
-Qed.
-
-Lemma inspect_module_err :
-  forall w n file search s x, walk_exit_only w ->
-    fst (inspect_module w n file search s) = Some x -> x = XImportError \/ (x = XUnicodeDecode /\ file <> None).
-Proof.
-  intros w n file search s x Hw. unfold inspect_module.
-  assert (K : forall r (s1 : st), fst (inspect_call w n file search s) = r ->
-                fst (option_map (rewrap inspect_module_handlers) r, s1) = Some x -> x = XImportError).
-  { intros r s1 Er. simpl. destruct r as [y |]; simpl; [| discriminate].
-    intro H. inversion H. subst x.
-    destruct (inspect_call_err w n file search s y Er) as [E | E].
-    - subst y. apply import_error_kept.
-    - apply Hw in E. subst y. apply system_exit_mapped. }
-  destruct (ignored n).
-  { simpl. intro H. inversion H. left. apply ignored_is_importerror. }
-  destruct file as [f |].
-  - destruct (m_vfault f) as [[|] |].
-    + destruct (inspect_call w n (Some f) search s) as [r s1] eqn:E. intro H. left. apply (K r s1); [reflexivity | exact H].
-    + destruct (source_suffix (m_suffix f)).
-      * simpl. intro H. inversion H. right. split; [reflexivity | discriminate].
-      * destruct (inspect_call w n (Some f) search s) as [r s1] eqn:E. intro H. left. apply (K r s1); [reflexivity | exact H].
-    + destruct (inspect_call w n (Some f) search s) as [r s1] eqn:E. intro H. left. apply (K r s1); [reflexivity | exact H].
-  - destruct (inspect_call w n None search s) as [r s1] eqn:E. intro H. left. apply (K r s1); [reflexivity | exact H].
-Qed.
-
-Lemma load_module_err :
-  forall w allow force search f s x, walk_exit_only w ->
-    fst (load_module w allow force search f s) = Some x -> x = XLoadingError.
-Proof.
-  intros w a fo search f s x Hw. unfold load_module.
-  destruct (agent_ladder false fo a (m_suffix f)) as [| | | y] eqn:L; simpl.
-  - discriminate.
-  - destruct (m_vfault f) as [v |]; simpl; [| discriminate]. intro H. inversion H. apply vfault_wrapped.
-  - pose proof (inspect_module_err w (m_name f) (Some f) search (log_ev (EvInspect (m_name f) (m_suffix f)) s)) as I.
-    destruct (inspect_module w (m_name f) (Some f) search (log_ev (EvInspect (m_name f) (m_suffix f)) s)) as [r s1]. simpl in *.
-    destruct r as [y |]; simpl; [| discriminate]. intro H. inversion H.
-    destruct (I y Hw eq_refl) as [Ey | [Ey _]]; subst y; [apply import_error_wrapped | apply unicode_wrapped].
-  - apply ladder_raises_loading_error in L. subst y. intro H. inversion H. apply loading_error_rewrap.
-Qed.
-
-Lemma load_subs_err :
-  forall w allow force search ns subs loaded s, walk_exit_only w -> fst (load_subs w allow force search ns subs loaded s) = None.
-Proof.
-  intros w a fo search ns subs loaded s Hw. revert loaded s. induction subs as [| f r IH]; intros loaded s; simpl; [reflexivity |].
-  destruct (negb ns && negb (mem_name (removelast (m_name f)) loaded)); [apply IH |].
-  pose proof (load_module_err w a fo search f s) as E.
-  destruct (load_module w a fo search f s) as [res s1]. simpl in E.
-  destruct res as [x |]; [| apply IH].
-  rewrite (E x Hw eq_refl). rewrite loading_error_is_skipped. apply IH.
-Qed.
-
-Lemma load_package_with_err :
-  forall np w allow force sm search top subs stubs s x, walk_exit_only w ->
-    fst (load_package_with np w allow force sm search top subs stubs s) = Some x ->
-    x = XLoadingError \/ exists s0, fst (np s0) = Some x.
-Proof.
-  intros np w a fo sm search top subs stubs s x Hw. unfold load_package_with.
-  pose proof (load_module_err w a fo search top s) as E1.
-  destruct (load_module w a fo search top s) as [r1 s1]. simpl in E1.
-  destruct r1 as [y |]; simpl; [intro H; inversion H; subst; left; apply E1; auto |].
-  assert (E2 : fst (if sm then load_subs w a fo search false subs [m_name top] s1 else (None, s1)) = None).
-  { destruct sm; [apply load_subs_err; exact Hw | reflexivity]. }
-  destruct (if sm then load_subs w a fo search false subs [m_name top] s1 else (None, s1)) as [r2 s2]. simpl in E2. subst r2.
-  destruct stubs as [[st_top st_subs] |]; simpl; [| discriminate].
-  destruct (np s2) as [rn s2'] eqn:En.
-  destruct rn as [y |]; simpl.
-  { intro H. inversion H. subst y. right. exists s2. rewrite En. reflexivity. }
-  pose proof (load_module_err w a fo search st_top s2') as E3.
-  destruct (load_module w a fo search st_top s2') as [r3 s3]. simpl in E3.
-  destruct r3 as [y |]; simpl; [intro H; inversion H; subst; left; apply E3; auto |].
-  destruct sm; simpl; [| discriminate].
-  rewrite (load_subs_err w a fo search false st_subs [m_name st_top] s3 Hw). discriminate.
-Qed.
-
-Lemma load_one_with_err :
-  forall np w allow force sm search req s x, walk_exit_only w ->
-    fst (load_one_with np w allow force sm search req s) = Some x ->
-    import_family x = true \/ (exists e, x = ferr_exn e /\ find_pkg (w_find w) req = FFinderError e) \/ exists s0, fst (np s0) = Some x.
-Proof.
-  intros np w a fo sm search req s x Hw. unfold load_one_with.
-  match goal with |- context [let (r, s') := ?X in _] =>
-    assert (H : fst X = Some x -> import_family x = true \/ (exists e, x = ferr_exn e /\ find_pkg (w_find w) req = FFinderError e) \/
-                                  exists s0, fst (np s0) = Some x); [| destruct X as [r s']; simpl in *; exact H] end.
-  destruct (find_pkg (w_find w) req) as [top subs stubs | n subs | via | e].
-  - intro H. apply load_package_with_err in H; [| exact Hw]. destruct H as [H | H]; [subst; left; reflexivity | right; right; exact H].
-  - destruct sm; simpl; [| discriminate].
-    rewrite (load_subs_err w a fo search true subs [n] (log_ev (EvCreate n) s) Hw). discriminate.
-  - destruct (not_found_reraises a fo); simpl.
-    + intro H. inversion H. left. reflexivity.
-    + pose proof (dynamic_import_err w [req] search s) as D.
-      destruct (dynamic_import w [req] search s) as [[y | v] s1]; simpl in *.
-      * intro H. inversion H. subst. rewrite (D x eq_refl). left. reflexivity.
-      * destruct via as [[top subs] |].
-        -- intro H. apply load_package_with_err in H; [| exact Hw].
-           destruct H as [H | H]; [subst; left; reflexivity | right; right; exact H].
-        -- intro H. apply inspect_module_err in H; [| exact Hw].
-           destruct H as [H | [_ H]]; [subst; left; reflexivity | exfalso; apply H; reflexivity].
-  - simpl. intro H. inversion H. right. left. exists e. split; reflexivity.
-Qed.
-
-Lemma load_one_err :
-  forall w allow force sm search req s x, walk_exit_only w ->
-    fst (load_one w allow force sm search req s) = Some x ->
-    import_family x = true \/ (exists e, x = ferr_exn e /\ find_pkg (w_find w) req = FFinderError e).
-Proof.
-  intros w a fo sm search req s x Hw H. unfold load_one in H.
-  apply load_one_with_err in H; [| exact Hw].
-  destruct H as [H | [H | [s0 H]]]; [left; exact H | right; exact H | discriminate H].
-Qed.
-
-(* what escapes a sequence of re-entrant loads is never in the import family (that is swallowed): it is what the finder raised *)
-Lemma reentries_err :
-  forall w allow force search reqs s x, walk_exit_only w ->
-    fst (reentries w allow force search reqs s) = Some x ->
-    exists q e, In q reqs /\ x = ferr_exn e /\ find_pkg (w_find w) q = FFinderError e.
-Proof.
-  intros w a fo search reqs s x Hw. revert s. induction reqs as [| r rs IH]; intros s; simpl; [discriminate |].
-  pose proof (load_one_err w a fo true search r s) as E.
-  destruct (load_one w a fo true search r s) as [res s1]. simpl in E.
-  destruct res as [y |].
-  - destruct (caught_by reentry_catches y) eqn:C.
-    + intro H. destruct (IH _ H) as (q & e & Hin & Hx & Hf). exists q, e. auto.
-    + simpl. intro H. inversion H. subst y.
-      destruct (E x Hw eq_refl) as [F | [e [Hx Hf]]].
-      * rewrite (reentry_swallows_import_family x F) in C. discriminate.
-      * exists r, e. auto.
-  - intro H. destruct (IH _ H) as (q & e & Hin & Hx & Hf). exists q, e. auto.
-Qed.
-
-Theorem failures_become_importerror :
-  forall w allow force submodules search nested root s x,
-    walk_exit_only w ->
-    fst (load_root w allow force submodules search nested root s) = Some x ->
-    import_family x = true \/
-    exists q e, In q (root :: nested) /\ x = ferr_exn e /\ find_pkg (w_find w) q = FFinderError e.
-Proof.
-  intros w a fo sm search nested root s x Hw H. unfold load_root in H.
-  apply load_one_with_err in H; [| exact Hw].
-  destruct H as [H | [[e [Hx Hf]] | [s0 H]]].
-  - left. exact H.
-  - right. exists root, e. simpl. auto.
-  - right. destruct (reentries_err _ _ _ _ _ _ _ Hw H) as (q & e & Hin & Hx & Hf). exists q, e. simpl. auto.
-Qed.
-
-(* whatever the walk raises: SystemExit never leaves load *)
-Lemma inspect_module_no_exit :
-  forall w n file search s, fst (inspect_module w n file search s) <> Some XSystemExit.
-Proof.
-  intros w n file search s. unfold inspect_module.
-  assert (K : forall r (s1 : st), fst (option_map (rewrap inspect_module_handlers) r, s1) <> Some XSystemExit).
-  { intros r s1. simpl. destruct r as [y |]; simpl; [| discriminate]. intro H. inversion H as [H']. revert H'. apply inspect_rewrap_no_exit. }
-  destruct (ignored n). { simpl. rewrite ignored_is_importerror. discriminate. }
-  destruct file as [f |].
-  - destruct (m_vfault f) as [[|] |].
-    + destruct (inspect_call w n (Some f) search s) as [r s1]. apply K.
-    + destruct (source_suffix (m_suffix f)); [simpl; discriminate |]. destruct (inspect_call w n (Some f) search s) as [r s1]. apply K.
-    + destruct (inspect_call w n (Some f) search s) as [r s1]. apply K.
-  - destruct (inspect_call w n None search s) as [r s1]. apply K.
-Qed.
-
-Lemma load_module_no_exit :
-  forall w allow force search f s, fst (load_module w allow force search f s) <> Some XSystemExit.
-Proof.
-  intros w a fo search f s. unfold load_module.
-  destruct (agent_ladder false fo a (m_suffix f)) as [| | | y] eqn:L; simpl.
-  - discriminate.
-  - destruct (m_vfault f) as [v |]; simpl; [| discriminate]. rewrite vfault_wrapped. discriminate.
-  - pose proof (inspect_module_no_exit w (m_name f) (Some f) search (log_ev (EvInspect (m_name f) (m_suffix f)) s)) as I.
-    destruct (inspect_module w (m_name f) (Some f) search (log_ev (EvInspect (m_name f) (m_suffix f)) s)) as [r s1]. simpl in *.
-    destruct r as [y |]; simpl; [| discriminate]. intro H. inversion H as [H'].
-    revert H'. apply load_rewrap_no_exit. intro E. subst y. apply I. reflexivity.
-  - apply ladder_raises_loading_error in L. subst y. rewrite loading_error_rewrap. discriminate.
-Qed.
-
-Lemma load_subs_no_exit :
-  forall w allow force search ns subs loaded s, fst (load_subs w allow force search ns subs loaded s) <> Some XSystemExit.
-Proof.
-  intros w a fo search ns subs. induction subs as [| f r IH]; intros loaded s; simpl; [discriminate |].
-  destruct (negb ns && negb (mem_name (removelast (m_name f)) loaded)); [apply IH |].
-  pose proof (load_module_no_exit w a fo search f s) as E.
-  destruct (load_module w a fo search f s) as [res s1]. simpl in E.
-  destruct res as [x |]; [| apply IH].
-  destruct (caught_by load_submodule_catches x); [apply IH | exact E].
-Qed.
-
-Lemma load_package_with_no_exit :
-  forall np w allow force sm search top subs stubs s,
-    (forall s0, fst (np s0) <> Some XSystemExit) ->
-    fst (load_package_with np w allow force sm search top subs stubs s) <> Some XSystemExit.
-Proof.
-  intros np w a fo sm search top subs stubs s Hnp. unfold load_package_with.
-  pose proof (load_module_no_exit w a fo search top s) as E1.
-  destruct (load_module w a fo search top s) as [r1 s1]. simpl in E1.
-  destruct r1 as [y |]; [exact E1 |].
-  assert (E2 : fst (if sm then load_subs w a fo search false subs [m_name top] s1 else (None, s1)) <> Some XSystemExit).
-  { destruct sm; [apply load_subs_no_exit | discriminate]. }
-  destruct (if sm then load_subs w a fo search false subs [m_name top] s1 else (None, s1)) as [r2 s2]. simpl in E2.
-  destruct r2 as [y |]; [exact E2 |].
-  destruct stubs as [[st_top st_subs] |]; [| discriminate].
-  pose proof (Hnp s2) as En.
-  destruct (np s2) as [rn s2']. simpl in En.
-  destruct rn as [y |]; [exact En |].
-  pose proof (load_module_no_exit w a fo search st_top s2') as E3.
-  destruct (load_module w a fo search st_top s2') as [r3 s3]. simpl in E3.
-  destruct r3 as [y |]; [exact E3 |].
-  destruct sm; [apply load_subs_no_exit | discriminate].
-Qed.
-
-Lemma load_one_with_no_exit :
-  forall np w allow force sm search req s,
-    (forall s0, fst (np s0) <> Some XSystemExit) ->
-    fst (load_one_with np w allow force sm search req s) <> Some XSystemExit.
-Proof.
-  intros np w a fo sm search req s Hnp. unfold load_one_with.
-  match goal with |- context [let (r, s') := ?X in _] =>
-    assert (H : fst X <> Some XSystemExit); [| destruct X as [r s']; simpl in *; exact H] end.
-  destruct (find_pkg (w_find w) req) as [top subs stubs | n subs | via | e].
-  - apply load_package_with_no_exit; exact Hnp.
-  - destruct sm; [apply load_subs_no_exit | discriminate].
-  - destruct (not_found_reraises a fo); [discriminate |].
-    pose proof (dynamic_import_err w [req] search s) as D.
-    destruct (dynamic_import w [req] search s) as [[y | v] s1]; simpl in *.
-    + rewrite (D y eq_refl). discriminate.
-    + destruct via as [[top subs] |]; [apply load_package_with_no_exit; exact Hnp | apply inspect_module_no_exit].
-  - destruct e; discriminate.
-Qed.
-
-Lemma reentries_no_exit :
-  forall w allow force search reqs s, fst (reentries w allow force search reqs s) <> Some XSystemExit.
-Proof.
-  intros w a fo search reqs. induction reqs as [| r rs IH]; intros s; simpl; [discriminate |].
-  assert (E : fst (load_one w a fo true search r s) <> Some XSystemExit).
-  { unfold load_one. apply load_one_with_no_exit. intros s0. discriminate. }
-  destruct (load_one w a fo true search r s) as [res s1]. simpl in E.
-  destruct res as [x |]; [| apply IH].
-  destruct (caught_by reentry_catches x); [apply IH | exact E].
-Qed.
-
-Theorem system_exit_never_escapes :
-  forall w allow force submodules search nested root reqs s,
-    fst (session w allow force submodules search nested root reqs s) <> Some XSystemExit.
-Proof.
-  intros w a fo sm search nested root reqs s. unfold session, load_root.
-  assert (E : fst (load_one_with (reentries w a fo search nested) w a fo sm search root s) <> Some XSystemExit).
-  { apply load_one_with_no_exit. intros s0. apply reentries_no_exit. }
-  destruct (load_one_with (reentries w a fo search nested) w a fo sm search root s) as [res s1]. simpl in E.
-  destruct res as [x |]; [exact E | apply reentries_no_exit].
-Qed.
-
-(* non-vacuity: SystemExit at import and SystemExit in the walk both come out as LoadingError at top level,
-   and are skipped for a submodule *)
-Example exit_at_top_is_loading_error :
-  let top := mkMod ["p"] ["sp"; "p"] "__init__" ".py" None in
-  let w := mkWorld [("p", FPkg top [] None)] [(["p"], mkBeh (Some ["sp"]) true [] (Some XSystemExit))] [] [] in
-  fst (session w true true true [["sp"]] [] "p" [] (init_state [["orig"]])) = Some XLoadingError.
-Proof. vm_compute. reflexivity. Qed.
-
-Example exit_in_walk_is_loading_error :
-  let top := mkMod ["p"] ["sp"; "p"] "__init__" ".py" None in
-  let w := mkWorld [("p", FPkg top [] None)] [(["p"], mkBeh (Some ["sp"]) true [] None)] [] [(["p"], XSystemExit)] in
-  fst (session w true true true [["sp"]] [] "p" [] (init_state [["orig"]])) = Some XLoadingError.
-Proof. vm_compute. reflexivity. Qed.
-
-(* a walk that raises anything else is NOT converted (modelled as the code is; outside the property's fault alphabet) *)
-Example other_walk_fault_escapes :
-  let top := mkMod ["p"] ["sp"; "p"] "__init__" ".py" None in
-  let w := mkWorld [("p", FPkg top [] None)] [(["p"], mkBeh (Some ["sp"]) true [] None)] [] [(["p"], XRuntimeError)] in
-  fst (session w true true true [["sp"]] [] "p" [] (init_state [["orig"]])) = Some XRuntimeError.
-Proof. vm_compute. reflexivity. Qed.
-
-(* non-vacuity of the nested phase: a package with stubs whose wildcard expansion loads the private sibling `_p`
-   (a compiled submodule of `_p` is imported because inspection is allowed) between the submodules and the stubs *)
-Example nested_phase_exercised :
-  let top := mkMod ["p"] ["sp"; "p"] "__init__" ".py" None in
-  let stub := mkMod ["p"] ["sp"; "p"] "__init__" ".pyi" None in
-  let sib := mkMod ["_p"] ["sp"; "_p"] "__init__" ".py" None in
-  let sibc := mkMod ["_p"; "c"] ["sp"; "_p"] "c" ".pyc" None in
-  let w := mkWorld [("p", FPkg top [] (Some (stub, []))); ("_p", FPkg sib [sibc] None)]
-                   [(["_p"], mkBeh (Some ["sp"]) true [EClear] None); (["_p"; "c"], mkBeh None true [] (Some XKeyboardInterrupt))] [] [] in
-  let '(r, s') := session w true false true [["sp"]] ["_p"] "p" [] (init_state [["orig"]]) in
-  r = None /\ cur s' = 0 /\ heap s' 0 = [["orig"]] /\ mods s' = [["_p"]] /\
-  map (fun e => match e with EvVisit n sfx => (n, sfx) | _ => ([], "") end) (filter (fun e => match e with EvVisit _ _ => true | _ => false end) (rev (log s')))
-    = [(["p"], ".py"); (["_p"], ".py"); (["p"], ".pyi")].
-Proof. vm_compute. repeat split. Qed.
